@@ -65,13 +65,15 @@ const (
 	bKSAdder
 	bKSSub
 	bUDivLong
+	bUDivRestoring
+	bUDivArray
 )
 
 var c07Names = []string{"Adder", "Subtractor", "Multiplier", "ArrayMultiplier", "KaratsubaMultiplier",
 	"WallaceMultiplier", "UDivider", "IDivider", "IntGt", "UintGt", "IntGe", "UintGe", "IntLt", "UintLt",
 	"IntLe", "UintLe", "Eq", "Neq", "LogicalAND", "LogicalOR", "BitSetTest", "BitClrTest", "MUX", "Index",
 	"BinaryAND", "BinaryClear", "BinaryOR", "BinaryXOR", "Hamming", "KoggeStoneAdder", "KoggeStoneSubtractor",
-	"UDividerLong"}
+	"UDividerLong", "UDividerRestoring", "UDividerArray"}
 
 type c07Case struct {
 	B   int   `json:"builder"`
@@ -232,6 +234,10 @@ func c07Call(cc *circuits.Compiler, b int, x, y, c3, z, r []*circuits.Wire, prms
 		err = circuits.NewKoggeStoneSubtractor(cc, x, y, z)
 	case bUDivLong:
 		err = circuits.NewUDividerLong(cc, x, y, z, r)
+	case bUDivRestoring:
+		err = circuits.NewUDividerRestoring(cc, x, y, z, r)
+	case bUDivArray:
+		err = circuits.NewUDividerArray(cc, x, y, z, r)
 	default:
 		err = fmt.Errorf("unknown builder %d", b)
 	}
@@ -480,11 +486,20 @@ func c07Expected(k c07Case, v []*big.Int) []*big.Int {
 		return one(new(big.Int).Sub(x, y))
 	case bMult, bArrayMult, bKaratsuba, bWallace:
 		return one(new(big.Int).Mul(x, y))
-	case bUDiv, bUDivLong:
+	case bUDiv, bUDivLong, bUDivRestoring, bUDivArray:
+		var q, r *big.Int
 		if y.Sign() == 0 {
-			return []*big.Int{nil, nil}
+			if k.B != bUDivRestoring && k.B != bUDivArray {
+				return []*big.Int{nil, nil}
+			}
+			// zero divisor, restoring / array divider: what C07_udiv_restoring / C07_udiv_array
+			// prove of the emitted circuit (every trial subtraction succeeds): all-ones
+			// quotient on max(len a, len b) bits, remainder = dividend
+			q = new(big.Int).Sub(new(big.Int).Lsh(big.NewInt(1), uint(mx)), big.NewInt(1))
+			r = new(big.Int).Set(x)
+		} else {
+			q, r = new(big.Int).QuoRem(x, y, new(big.Int))
 		}
-		q, r := new(big.Int).QuoRem(x, y, new(big.Int))
 		res := []*big.Int{nil, nil}
 		if k.Dsw[0] > 0 {
 			res[0] = c07Mask(q, k.Dsw[0])
@@ -603,6 +618,15 @@ func c07Class(k c07Case, dest int, v []*big.Int) string {
 			return "goldschmidt:wrong-" + what
 		}
 		return "wrong-" + what
+	case bUDivRestoring, bUDivArray:
+		what := "quotient"
+		if dest == 1 {
+			what = "remainder"
+		}
+		if len(v) > 1 && v[1].Sign() == 0 {
+			return "zero-divisor:wrong-" + what
+		}
+		return "wrong-" + what
 	}
 	if zw == mx {
 		return "zw=max"
@@ -662,7 +686,7 @@ func c07Operands(r *RNG, k c07Case, exhaustiveBits int, nrand int) [][]*big.Int 
 	for _, w := range k.Opw {
 		lists = append(lists, bnd(w))
 	}
-	if (k.B == bUDiv || k.B == bIDiv || k.B == bUDivLong) && len(lists) >= 2 {
+	if (k.B == bUDiv || k.B == bIDiv || k.B == bUDivLong || k.B == bUDivRestoring || k.B == bUDivArray) && len(lists) >= 2 {
 		// small and odd divisors (quotient estimate errors of the Goldschmidt divider)
 		for d := 4; d <= 64; d++ {
 			if d < 1<<uint(k.Opw[1]) {
@@ -1171,6 +1195,17 @@ func c07Cases(c *Ctx) []c07Case {
 					add(c07Case{B: bld, Tgt: tgt, Opw: []int{a, b}, Dsw: []int{mx, 0}})
 					add(c07Case{B: bld, Tgt: tgt, Opw: []int{a, b}, Dsw: []int{0, mx}})
 				}
+				// restoring and array dividers (exported, no in-repo caller): both targets, unequal
+				// operand widths, quotient / remainder narrower and wider than the operands, nil
+				for _, bld := range []int{bUDivRestoring, bUDivArray} {
+					dl := [][]int{{mx, mx}, {mx, 0}, {0, mx}, {mx + 2, mx + 1}}
+					if mx > 1 {
+						dl = append(dl, []int{mx - 1, mx + 3}, []int{mx + 1, mx - 1})
+					}
+					for _, d := range dl {
+						add(c07Case{B: bld, Tgt: tgt, Opw: []int{a, b}, Dsw: d})
+					}
+				}
 			}
 		}
 	}
@@ -1237,6 +1272,10 @@ func c07Cases(c *Ctx) []c07Case {
 			if tgt == 0 && (thorough || w <= 33) {
 				add(c07Case{B: bUDiv, Tgt: 0, Opw: []int{w, w}, Dsw: []int{w, w}})
 				add(c07Case{B: bIDiv, Tgt: 0, Opw: []int{w, w}, Dsw: []int{w, w}})
+			}
+			if w <= 17 || (thorough && w <= 33) {
+				add(c07Case{B: bUDivRestoring, Tgt: tgt, Opw: []int{w, w - 2}, Dsw: []int{w, w}})
+				add(c07Case{B: bUDivArray, Tgt: tgt, Opw: []int{w - 3, w}, Dsw: []int{w + 1, w}})
 			}
 		}
 	}
